@@ -154,6 +154,20 @@ def core_pool():
     c.append(make([p('Tracked'), p('u8'), p('u16'), p('Tracked'), p('u8')], tags={'tracked', 'nontrivial', 'runs', 'plain'}))
     c.append(make([f('u8'), f('string'), f('u16'), p('u8')], tags={'nontrivial', 'runs'}))
     c.append(make([p('u8'), v('string')], tags={'nontrivial', 'lowalign'}))
+    # an aligned first parameter: its alignment rests on the element start, which relocation must keep aligned
+    c.append(make([p('Tracked', 8), p('u8'), v('u8')], tags={'tracked', 'nontrivial', 'layout', 'alignedfirst'}))
+    c.append(make([p('uptr', 8), p('u32'), v('char')], tags={'nontrivial', 'layout', 'alignedfirst', 'moveonly'}))
+    c.append(make([p('u32', 4), p('u8'), v('Tracked')], tags={'tracked', 'nontrivial', 'layout', 'alignedfirst'}))
+    c.append(make([f('string', 8), p('u16'), v('u16', 2)], tags={'nontrivial', 'layout', 'alignedfirst'}))
+    # alignment that is statically guaranteed by the sizes in front of it (assumed, not made), and stride padding of
+    # all-fixed lists with odd / even fixed sizes
+    c.append(make([f('u16', 8), p('u32'), p('u32', 4)], tags={'layout', 'fixedlayout'}))
+    c.append(make([f('u32'), f('double', 8)], tags={'layout', 'fixedlayout'}))
+    c.append(make([p('char'), f('u16', 2), p('u64', 8)], tags={'layout', 'fixedlayout'}))
+    c.append(make([p('u16', 8), p('u64', 8)], tags={'layout', 'fixedlayout', 'memcmp'}))
+    c.append(make([f('u16', 4), p('u32', 4)], tags={'layout', 'fixedlayout', 'memcmp'}))
+    c.append(make([p('u32'), v('double', 8), p('u32')], tags={'layout', 'risky'}))
+    c.append(make([p('u32'), v('float'), f('double', 8)], tags={'layout', 'risky'}))
     return c
 
 
@@ -186,50 +200,79 @@ ALIGNS = [2, 4, 8, 16, 32, 64]
 
 
 def random_list(rng, flavour):
-    """flavour: 'layout' (trivial, alignment heavy), 'tracked', 'any'."""
+    """flavour: 'layout' (trivial, alignment heavy, with varying), 'fixedlayout' (plain/FixedSize only: stride and
+    padding formulas), 'alignedfirst' (an aligned - possibly non-trivial - first parameter whose alignment rests on
+    the element start, followed by spans), 'tracked', 'any'."""
     while True:
-        n = rng.randint(1, 5)
         params = []
-        for _ in range(n):
-            r = rng.random()
-            if flavour == 'tracked':
-                t = rng.choice(NONTRIV_POOL[:3]) if rng.random() < 0.5 else rng.choice(TRIV_POOL)
-            elif flavour == 'layout':
-                t = rng.choice(['u8', 'u8', 'u16', 'B3', 'B5', 'u32', 'B12', 'u64', 'float', 'double', 'B24'])
-            else:
-                t = rng.choice(NONTRIV_POOL) if rng.random() < 0.25 else rng.choice(TRIV_POOL)
-            a = 1
-            if rng.random() < (0.5 if flavour == 'layout' else 0.25):
-                a = rng.choice(ALIGNS if flavour == 'layout' else ALIGNS[:4])
-            if r < 0.4:
-                params.append(('p', t, a))
-            elif r < 0.65:
-                params.append(('f', t, a))
-            else:
-                ct = rng.choice(COUNT_TYPES)
-                ca = rng.choice([1, 1, 1, 2, 4, 8]) if flavour == 'layout' else 1
-                params.append(('p', ct, ca))
-                params.append(('v', t, a))
+        if flavour == 'fixedlayout':
+            n = rng.randint(2, 4)
+            for _ in range(n):
+                t = rng.choice(['u8', 'u16', 'u16', 'u32', 'u32', 'u64', 'double', 'B3', 'B5', 'B12', 'float'])
+                a = rng.choice([2, 4, 8, 8, 16]) if rng.random() < 0.55 else 1
+                params.append(('f' if rng.random() < 0.6 else 'p', t, a))
+        elif flavour == 'alignedfirst':
+            t0 = rng.choice(['Tracked', 'uptr', 'string', 'u32', 'u64', 'double', 'TrackedMO'])
+            params.append((rng.choice(['p', 'p', 'f']), t0, rng.choice([4, 8, 8, 16])))
+            for _ in range(rng.randint(1, 3)):
+                r = rng.random()
+                t = rng.choice(['u8', 'char', 'u16', 'B3', 'u32', 'Tracked', 'string'])
+                a = rng.choice([2, 4, 8]) if rng.random() < 0.3 else 1
+                if r < 0.3:
+                    params.append(('p', t, a))
+                elif r < 0.5:
+                    params.append(('f', t, a))
+                else:
+                    params.append(('p', rng.choice(COUNT_TYPES), 1))
+                    params.append(('v', t, a))
+        else:
+            n = rng.randint(1, 5)
+            for _ in range(n):
+                r = rng.random()
+                if flavour == 'tracked':
+                    t = rng.choice(NONTRIV_POOL[:3]) if rng.random() < 0.5 else rng.choice(TRIV_POOL)
+                elif flavour == 'layout':
+                    t = rng.choice(['u8', 'u8', 'u16', 'B3', 'B5', 'u32', 'B12', 'u64', 'float', 'double', 'B24'])
+                else:
+                    t = rng.choice(NONTRIV_POOL) if rng.random() < 0.25 else rng.choice(TRIV_POOL)
+                a = 1
+                if rng.random() < (0.5 if flavour == 'layout' else 0.35):
+                    a = rng.choice(ALIGNS if flavour == 'layout' else ALIGNS[:4])
+                if r < 0.4:
+                    params.append(('p', t, a))
+                elif r < 0.65:
+                    params.append(('f', t, a))
+                else:
+                    ct = rng.choice(COUNT_TYPES)
+                    ca = rng.choice([1, 1, 1, 2, 4, 8]) if flavour == 'layout' else 1
+                    params.append(('p', ct, ca))
+                    params.append(('v', t, a))
         if valid(params) and len(params) <= 7:
-            # keep AMAX <= 64 and avoid absurd element sizes
             return params
+
+
+FLAVOURS = ['layout', 'fixedlayout', 'tracked', 'alignedfirst', 'layout', 'any']
 
 
 def random_pool(seed, count):
     rng = random.Random(seed)
     out, seen = [], set()
-    flavours = ['layout', 'layout', 'tracked', 'any']
     i = 0
     while len(out) < count:
-        fl = flavours[i % len(flavours)]
+        fl = FLAVOURS[i % len(FLAVOURS)]
         i += 1
         prm = random_list(rng, fl)
-        cfg = make(prm, STD, tags={'random', fl} | ({'layout'} if fl == 'layout' else set()))
+        tags = {'random', fl}
+        if fl in ('layout', 'fixedlayout', 'alignedfirst'):
+            tags.add('layout')
+        cfg = make(prm, STD, tags=tags)
         ts = {t for _, t, _ in prm}
         if ts & {'Tracked', 'TrackedMO'}:
             cfg['tags'].add('tracked')
         if not ts <= TRIVIAL:
             cfg['tags'].add('nontrivial')
+        if ts & MOVE_ONLY:
+            cfg['tags'].add('moveonly')
         if cfg['name'] in seen:
             continue
         seen.add(cfg['name'])
